@@ -261,5 +261,5 @@ let () =
   Printf.printf "OPS {\"operations\":%d,\"physical_setter_ops\":%d,\"physical_setter_ops_exact\":%d,\"op_kinds\":{%s}}\n" !n_ops !n_phys !n_phys_exact (String.concat "," (List.sort compare ks));
   Printf.printf "CLASS {\"messages_satisfying_theorem_hypotheses\":%d,\"messages_outside\":%d,\"outside\":[%s]}\n"
     !n_msgs_in_class !n_msgs_out_class (String.concat "," (List.map (fun s -> "\"" ^ s ^ "\"") !out_of_class));
-  Genwire.print_wire_stats ();
+  Genwire.print_wire_stats db_of;
   print_stats ()
